@@ -51,7 +51,7 @@ def _coord(rng, force_mono=False):
                 "ptypes": [f"custom:p{rng.randrange(100)}_{i}" for i in range(nt)] if rng.random() < 0.6 else None}
     if kind == "time":
         t, m = _table(rng, rng.randrange(1, 9), mono)
-        return {"kind": "time", "tables": [t], "mono": [m], "ref": rng.random() < 0.5,
+        return {"kind": "time", "tables": [t], "mono": [m], "ref": rng.random() < 0.5, "scale": rng.choice(["utc", "utc", "tai", "tt"]),
                 "names": ["tname"] if rng.random() < 0.5 else None, "ptypes": None}
     n = rng.randrange(1, 7)
     lon, m1 = _table(rng, n, mono or rng.choice(["inc", "dec"]))
@@ -79,11 +79,17 @@ def _item(rng, n):
     return ["s", b(), b(), rng.choice([None, None, 1, 1, 2, -1, -2, 3])]
 
 
+def _sky_item(rng, n):
+    """SkyCoord tables refuse steps (known finding sky-step): integers and step-1 slices of both signs"""
+    it = _item(rng, n)
+    return it if isinstance(it, int) else ["s", it[1], it[2], None]
+
+
 def gen(tier, rng):
     cases = []
     N = 2600 if tier == "quick" else 50000
     for _ in range(N):
-        probe = rng.choice(["p2w", "p2w", "w2p", "slice", "slice", "interp", "resample", "meta"])
+        probe = rng.choice(["p2w", "p2w", "w2p", "slice", "slice", "interp", "resample", "meta", "chain", "chain", "sky2d"])
         case = {"probe": probe}
         if probe in ("p2w", "interp", "meta"):
             coords = [_coord(rng) for _ in range(rng.choice([1, 1, 2, 3]))]
@@ -128,8 +134,38 @@ def gen(tier, rng):
                 items = [_item(rng, len(c["tables"][0]))]
             else:
                 items = [_item(rng, _len_of_dim(c, d)) for d in range(_pix_dims(c))]
+            if c["kind"] == "q" and len(items) == 2 and rng.random() < 0.25:
+                items = items[:1]                          # fewer items than tables: the remaining tables are kept whole
             case["items"] = items
             case["twice"] = rng.random() < 0.3            # slice the parent a second time with the same item afterwards
+        elif probe == "chain":
+            # slice first (plain step-1 slices that keep at least one entry), then slice / interpolate / evaluate the RESULT
+            c = _coord(rng)
+            case["coords"] = [c]
+            nd_items = 1 if (c["kind"] == "sky" and not c["mesh"]) else _pix_dims(c)
+            first, lens = [], []
+            for d in range(nd_items):
+                n = _len_of_dim(c, d)
+                a = rng.randrange(0, n)
+                b = rng.randrange(a + 1, n + 1)
+                first.append(["s", rng.choice([a, a - n]) if a else rng.choice([0, None]), rng.choice([b, b - n]) if b < n else rng.choice([n, None, n + 3]), None])
+                lens.append(b - a)
+            case["first"] = first
+            then = rng.choice(["slice", "slice", "interp", "p2w"])
+            case["then"] = then
+            if then == "slice":
+                case["items"] = [(_item(rng, m) if c["kind"] != "sky" else _sky_item(rng, m)) for m in lens]
+                if c["kind"] == "sky" and c["mesh"] and any(isinstance(i, int) for i in case["items"]):
+                    case["items"] = [i if isinstance(i, int) else rng.randrange(m) for i, m in zip(case["items"], lens)]   # all integers
+            elif then == "interp":
+                glen = rng.randrange(1, 5)
+                case["grids"] = [sorted([rng.randrange(0, 4 * (m - 1) + 1), 4] for _ in range(glen)) if m > 1 else [[0, 1]] * glen for m in lens]
+            else:
+                case["pix"] = [[rng.randrange(0, 4 * (m - 1) + 1), 4] if m > 1 else [0, 1] for m in lens]
+        elif probe == "sky2d":
+            n0, n1 = rng.randrange(2, 5), rng.randrange(2, 5)
+            case["lon"] = [[[400 + 8 * i + rng.randrange(0, 4), 4] for j in range(n1)] for i in range(n0)]
+            case["lat"] = [[[-40 + 12 * j + rng.randrange(0, 4), 4] for j in range(n1)] for i in range(n0)]
         elif probe == "resample":
             nd = rng.choice([1, 2])
             shape = [rng.randrange(2, 9) for _ in range(nd)]
@@ -147,7 +183,7 @@ def gen(tier, rng):
                          "offset": [rng.choice([[0, 1], [1, 2], [1, 1], [1, 4]]) for _ in range(nd)],
                          "scalar_args": rng.random() < 0.2})
         case["key"] = repr(case)
-        case["stratum"] = probe + ("-" + "+".join(c["kind"] + ("m" if c.get("mesh") else "") for c in case["coords"]) if "coords" in case else "")
+        case["stratum"] = probe + ("-" + case.get("then", "") if probe == "chain" else "") + ("-" + "+".join(c["kind"] + ("m" if c.get("mesh") else "") for c in case["coords"]) if "coords" in case else "")
         case["nontrivial"] = True
         case["show"] = {k: v for k, v in case.items() if k not in ("key", "stratum", "nontrivial", "show")}
         cases.append(case)
@@ -170,7 +206,7 @@ def _build(c):
     if c["kind"] == "q":
         return QuantityTableCoordinate(*[v * u.Unit(c["unit"]) for v in vals], names=c["names"], physical_types=c["ptypes"])
     if c["kind"] == "time":
-        ref = Time(REF)
+        ref = Time(REF, scale=c.get("scale", "utc"))
         tt = ref + vals[0] * u.s
         return TimeTableCoordinate(tt, names=c["names"], reference_time=ref if (c["ref"] or vals[0][0] != 0) else None)
     return SkyCoordTableCoordinate(SkyCoord(vals[0] * u.deg, vals[1] * u.deg), mesh=c["mesh"])
@@ -187,14 +223,14 @@ def _canon(v, tol=1e-6):
 TIME_TOL = 2e-6      # Time tables are interpolated through MJD doubles: about a microsecond
 
 
-def _tables_of(tc, kind, ref_needed=True):
+def _tables_of(tc, kind, scale="utc"):
     """the tables an implementation coordinate holds, as lists of floats (or scalars)"""
     import astropy.units as u
     from astropy.time import Time
     if kind == "q":
         return [np.asarray(t.value, dtype=float) for t in tc.table]
     if kind == "time":
-        return [np.asarray((tc.table - Time(REF)).to_value(u.s), dtype=float)]
+        return [np.asarray((tc.table - Time(REF, scale=scale)).to_value(u.s), dtype=float)]
     comps = tc._sliced_components if tc.mesh else tuple(getattr(tc.table.data, comp) for comp in tc.table.data.components)
     return [np.asarray(x.to_value(u.deg), dtype=float) for x in comps]
 
@@ -238,7 +274,7 @@ def run(case):
     probe = case["probe"]
     why, out, finding = [], {}, None
     try:
-        if probe in ("p2w", "interp", "meta", "w2p", "slice"):
+        if probe in ("p2w", "interp", "meta", "w2p", "slice", "chain"):
             tcs = [_build(c) for c in case["coords"]]
             joined = reduce(lambda a, b: a & b, tcs) if len(tcs) > 1 else tcs[0]
         if probe == "p2w":
@@ -261,7 +297,8 @@ def run(case):
             wf = [float(x) for x in wv]
             if c["kind"] == "time":
                 from astropy.time import Time
-                wf = [float(((Time(REF) + wf[0] * u.s) - Time(REF)).to_value(u.s))]        # the table's own float arithmetic
+                rt = Time(REF, scale=c.get("scale", "utc"))
+                wf = [float(((rt + wf[0] * u.s) - rt).to_value(u.s))]        # the table's own float arithmetic
             got = _vec(joined.wcs.world_to_pixel_values(*wf), npx)
             # expected: index of the entry / midpoint in the strictly monotonic table
             exp = []
@@ -288,13 +325,16 @@ def run(case):
             mixed = c["kind"] == "sky" and c["mesh"] and any(kinds) and not all(kinds)
             tabs = [np.array([float(_fr(v)) for v in t]) for t in c["tables"]]
             per_tab_items = items if not (c["kind"] == "sky" and not c["mesh"]) else [items[0], items[0]]
+            if c["kind"] == "q" and len(items) < len(tabs):
+                per_tab_items = items + [slice(None)] * (len(tabs) - len(items))
+                kinds = kinds + [False] * (len(tabs) - len(items))
             exp, bad = [], None
             for t, it in zip(tabs, per_tab_items):
                 try:
                     exp.append(t[it])
                 except (IndexError, ValueError) as e:
                     bad = type(e).__name__
-            before = [x.copy() for x in _tables_of(joined, c["kind"])]
+            before = [x.copy() for x in _tables_of(joined, c["kind"], c.get("scale", "utc"))]
             try:
                 r = joined[item]
                 if case["twice"]:
@@ -302,7 +342,7 @@ def run(case):
                 exc = None
             except Exception as e:  # noqa
                 r, exc = None, exc_name(e)
-            after = _tables_of(joined, c["kind"])
+            after = _tables_of(joined, c["kind"], c.get("scale", "utc"))
             if any(not np.array_equal(a, b) for a, b in zip(before, after)):
                 why.append("slicing changed the coordinate that was sliced")
             res = None
@@ -319,7 +359,7 @@ def run(case):
                 if c["kind"] == "sky" and any(isinstance(i, slice) and i.step not in (None, 1) for i in items):
                     finding = FINDING_STEP
             else:
-                got = _tables_of(r, c["kind"])
+                got = _tables_of(r, c["kind"], c.get("scale", "utc"))
                 if c["kind"] == "q" and any(kinds) and not all(kinds):
                     # a meshed Quantity coordinate drops the integer-indexed tables and records their values
                     dropped = [float(np.asarray(getattr(v, "value", v))) for v in r.dropped_world_dimensions["value"]]
@@ -353,6 +393,83 @@ def run(case):
                         why.append(f"WCS of a meshed SkyCoord table sliced with an integer on one component raised {exc_name(e)}")
                         finding = FINDING_MIXED
             out = {"exc": exc, "res": res, "bad": bad}
+        elif probe == "chain":
+            c = case["coords"][0]
+            sc = c.get("scale", "utc")
+            first = [Q.dec_item(e) for e in case["first"]]
+            tabs = [np.array([float(_fr(v)) for v in t]) for t in c["tables"]]
+            per_tab_first = first if not (c["kind"] == "sky" and not c["mesh"]) else [first[0], first[0]]
+            t1 = [t[it] for t, it in zip(tabs, per_tab_first)]
+            r1 = joined[first[0] if len(first) == 1 else tuple(first)]
+            got1 = _tables_of(r1, c["kind"], sc)
+            tol = TIME_TOL if c["kind"] == "time" else 1e-9
+            if len(got1) != len(t1) or any(not _close(a, b) for a, b in zip(got1, t1)):
+                why.append(f"first slice {first}: coordinate holds {[np.asarray(a).tolist() for a in got1]}, the sliced tables are {[a.tolist() for a in t1]}")
+            out = {"then": case["then"], "t1": [[_canon(v) for v in a] for a in t1]}
+            if not why and case["then"] == "slice":
+                items = [Q.dec_item(e) for e in case["items"]]
+                per2 = items if not (c["kind"] == "sky" and not c["mesh"]) else [items[0], items[0]]
+                exp, bad = [], None
+                for t, it in zip(t1, per2):
+                    try:
+                        exp.append(t[it])
+                    except (IndexError, ValueError) as e:
+                        bad = type(e).__name__
+                try:
+                    r2 = r1[items[0] if len(items) == 1 else tuple(items)]
+                    exc = None
+                except Exception as e:  # noqa
+                    r2, exc = None, exc_name(e)
+                if bad:
+                    if exc is None:
+                        why.append(f"second item {items}: an item numpy refuses ({bad}) was accepted")
+                elif exc is not None:
+                    why.append(f"second item {items} on the sliced coordinate raised {exc}")
+                else:
+                    kinds2 = [isinstance(i, int) for i in items]
+                    got = _tables_of(r2, c["kind"], sc)
+                    if c["kind"] == "q" and any(kinds2) and not all(kinds2):
+                        dropped = [float(np.asarray(getattr(v, "value", v))) for v in r2.dropped_world_dimensions["value"]]
+                        kept, dr = iter(got), iter(dropped)
+                        got = [np.asarray(next(dr)) if isint else next(kept) for isint in kinds2]
+                    if len(got) != len(exp) or any(not _close(g, e) for g, e in zip(got, exp)):
+                        why.append(f"slicing {first} and then {items}: coordinate holds {[np.asarray(g).tolist() for g in got]}, the tables sliced twice are {[np.asarray(e).tolist() for e in exp]}")
+                    out["res"] = [(["t", [_canon(v) for v in np.atleast_1d(g)]] if np.ndim(g) else ["s", _canon(g)]) for g in got]
+                out["exc"], out["bad"] = exc, bad
+            elif not why and case["then"] == "interp":
+                grids = [np.array([float(_fr(v)) for v in g]) for g in case["grids"]]
+                r2 = r1.interpolate(*grids)
+                got = _tables_of(r2, c["kind"], sc)
+                gsel = grids if not (c["kind"] == "sky" and not c["mesh"]) else [grids[0], grids[0]]
+                exp = [np.interp(g, np.arange(len(t)), t) for t, g in zip(t1, gsel)]
+                if len(got) != len(exp) or any(not _close(a, b, tol) for a, b in zip(got, exp)):
+                    why.append(f"slicing {first} and interpolating at {[g.tolist() for g in grids]}: tables {[np.asarray(a).tolist() for a in got]}, the sliced tables interpolate to {[b.tolist() for b in exp]}")
+                out["tables"] = [[_canon(v, TIME_TOL if c["kind"] == "time" else 1e-6) for v in np.atleast_1d(a)] for a in got]
+            elif not why:
+                pix = [_fr(v) for v in case["pix"]]
+                nw = 2 if c["kind"] == "sky" else len(c["tables"])
+                got = _vec(r1.wcs.pixel_to_world_values(*[float(x) for x in pix]), nw)
+                c1 = dict(c, tables=[[[Fr(float(v)).numerator, Fr(float(v)).denominator] for v in a] for a in t1])
+                exp = _expected_p2w(c1, pix)
+                if not _close(got, exp, 1e-9):
+                    why.append(f"slicing {first}: pixel {[float(x) for x in pix]} -> {got}, the sliced tables give {exp}")
+                out["vals"] = [_canon(v) for v in got]
+        elif probe == "sky2d":
+            from astropy.coordinates import SkyCoord
+            from ndcube.extra_coords.table_coord import SkyCoordTableCoordinate
+            lon = np.array([[float(_fr(v)) for v in row] for row in case["lon"]])
+            lat = np.array([[float(_fr(v)) for v in row] for row in case["lat"]])
+            tc = SkyCoordTableCoordinate(SkyCoord(lon * u.deg, lat * u.deg), mesh=False)
+            w = tc.wcs
+            for i in range(lon.shape[0]):
+                for j in range(lon.shape[1]):
+                    got = _vec(w.pixel_to_world_values(float(i), float(j)), 2)
+                    if not _close(got, [lon[i, j], lat[i, j]]):
+                        why.append(f"2-D SkyCoord table: pixel ({i}, {j}) -> {got}, the table holds {[lon[i, j], lat[i, j]]}")
+                        break
+                if why:
+                    break
+            out = {}
         elif probe == "interp":
             grids = [np.array([float(_fr(v)) for v in g]) for g in case["grids"]]
             r = joined.interpolate(*grids)
@@ -365,7 +482,7 @@ def run(case):
                 tabs = [np.array([float(_fr(v)) for v in t]) for t in c["tables"]]
                 gsel = gs if not (c["kind"] == "sky" and not c["mesh"]) else [gs[0], gs[0]]
                 exp.append([np.interp(g, np.arange(len(t)), t) for t, g in zip(tabs, gsel)])
-                got.append(_tables_of(part, c["kind"]))
+                got.append(_tables_of(part, c["kind"], c.get("scale", "utc")))
             for c, g, e in zip(case["coords"], got, exp):
                 if len(g) != len(e) or any(not _close(a, b, TIME_TOL if c["kind"] == "time" else 1e-9) for a, b in zip(g, e)):
                     why.append(f"interpolate gave tables {[np.asarray(a).tolist() for a in g]}, linear interpolation of the tables at the grids gives {[np.asarray(b).tolist() for b in e]}")
@@ -466,7 +583,27 @@ TRIV = "PSlice [] (IInt (0)%Z) SErr"
 def coq_case(case, res):
     o = res["out"]
     probe = case["probe"]
-    if o.get("crashed") or probe == "meta":
+    oq = lambda v: "None" if v is None else f"(Some {_cq(v)})"  # noqa
+    if o.get("crashed") or probe in ("meta", "sky2d"):
+        return TRIV
+    if probe == "chain":
+        c = case["coords"][0]
+        if "t1" not in o:
+            return TRIV
+        c1 = dict(c, tables=o["t1"])
+        if o["then"] == "p2w" and "vals" in o:
+            return f"PP2W {Q.lst([_coq_coord(c1)])} {_qs(case['pix'])} {Q.lst([oq(v) for v in o['vals']])}"
+        if o["then"] == "interp" and "tables" in o:
+            return f"PInterp {Q.lst([_coq_coord(c1)])} {Q.lst([_qs(g) for g in case['grids']])} {Q.lst([Q.lst([_qs(t) for t in o['tables']])])}"
+        if o["then"] == "slice" and o.get("res") is not None:
+            items = case["items"]
+            per_tab = items if not (c["kind"] == "sky" and not c["mesh"]) else [items[0], items[0]]
+            k = len(repr(case["key"])) % len(c1["tables"])
+            if len(o["res"]) != len(c1["tables"]):
+                return TRIV
+            r = o["res"][k]
+            impl = f"(STable {_qs(r[1])})" if r[0] == "t" else f"(SScalar {_cq(r[1])})"
+            return f"PSlice {_qs(c1['tables'][k])} {Q.coq_item(per_tab[k])} {impl}"
         return TRIV
     oq = lambda v: "None" if v is None else f"(Some {_cq(v)})"  # noqa
     if probe == "p2w":
@@ -477,6 +614,7 @@ def coq_case(case, res):
         c = case["coords"][0]
         items = case["items"]
         per_tab = items if not (c["kind"] == "sky" and not c["mesh"]) else [items[0], items[0]]
+        per_tab = per_tab + [["s", None, None, None]] * (len(c["tables"]) - len(per_tab))
         k = len(repr(case["key"])) % len(c["tables"])          # the table whose slicing is compared with the model
         if o["exc"] is not None or o["res"] is None:
             if o["bad"] is None:
@@ -488,6 +626,8 @@ def coq_case(case, res):
                 except Exception:  # noqa
                     return f"PSlice {_qs(t)} {Q.coq_item(it)} SErr"
             return TRIV
+        if len(o["res"]) != len(c["tables"]):
+            return TRIV                                       # reported by the oracle
         r = o["res"][k]
         impl = f"(STable {_qs(r[1])})" if r[0] == "t" else f"(SScalar {_cq(r[1])})"
         return f"PSlice {_qs(c['tables'][k])} {Q.coq_item(per_tab[k])} {impl}"
